@@ -155,6 +155,9 @@ func (d *Downstream) closeWithError(ctx context.Context, cause error) (err error
 
 // ReadDataPointsは、ダウンストリームデータポイントを受信します。
 func (d *Downstream) ReadDataPoints(ctx context.Context) (*DownstreamChunk, error) {
+	if d.isClosed() {
+		return nil, errors.ErrStreamClosed
+	}
 	select {
 	case <-d.ctx.Done():
 		return nil, errors.ErrStreamClosed
@@ -181,6 +184,9 @@ func (d *Downstream) ReadDataPoints(ctx context.Context) (*DownstreamChunk, erro
 
 // ReadMetadataは、ダウンストリームメタデータを受信します。
 func (d *Downstream) ReadMetadata(ctx context.Context) (*DownstreamMetadata, error) {
+	if d.isClosed() {
+		return nil, errors.ErrStreamClosed
+	}
 	select {
 	case <-d.ctx.Done():
 		return nil, errors.ErrStreamClosed
